@@ -56,7 +56,35 @@ pub fn run(thorough: bool, seed: u64, _replay: Option<String>) -> Report {
     for (i, (bytes, s, tag)) in contents.iter().enumerate() {
         let p = dir.join(format!("f{}.bin", i));
         std::fs::write(&p, bytes).expect("write temp file");
-        let via_path = real_from_path(&p, s);
+        // the same file reached in different ways: directly, through symbolic links (absolute, relative,
+        // chained, with a long target name), through a hard link, through a path with `..` components
+        let sub = dir.join("sub");
+        let _ = std::fs::create_dir_all(&sub);
+        let access = i % 6;
+        let p_access: PathBuf = match access {
+            1 => { let l = dir.join(format!("abs-link-{}", i)); let _ = std::os::unix::fs::symlink(&p, &l); l }
+            2 => { let l = sub.join(format!("rel-link-{}", i)); let _ = std::os::unix::fs::symlink(PathBuf::from("..").join(format!("f{}.bin", i)), &l); l }
+            3 => {
+                let l1 = dir.join(format!("chain-a-{}", i));
+                let l2 = dir.join(format!("chain-b-{}-with-a-rather-long-name-{}", i, "x".repeat(i % 97)));
+                let _ = std::os::unix::fs::symlink(&p, &l1);
+                let _ = std::os::unix::fs::symlink(&l1, &l2);
+                l2
+            }
+            4 => { let l = dir.join(format!("hard-{}", i)); let _ = std::fs::hard_link(&p, &l); l }
+            5 => sub.join("..").join("sub").join("..").join(format!("f{}.bin", i)),
+            _ => p.clone(),
+        };
+        rep.count(&format!("access:{}", ["direct", "symlink-abs", "symlink-rel", "symlink-chain", "hardlink", "dotdot"][access]));
+        let via_path = real_from_path(&p_access, s);
+        if access != 0 {
+            let direct = real_from_path(&p, s);
+            rep.evaluations += 1;
+            if direct != via_path {
+                rep.fail("oracle", "C14:path-result-depends-on-how-the-file-is-reached", &format!("via {}: {} || direct: {}", p_access.display(), via_path.show(), direct.show()), bytes, Some(s), tag);
+            }
+            let _ = std::fs::remove_file(&p_access);
+        }
         let via_bytes = real_detect(bytes, s);
         rep.evaluations += 1;
         rep.oracle_checked += 1;
